@@ -61,3 +61,9 @@ func VerifNewDBIter(raw iterator.Iterator, ucmp comparer.Comparer, seq uint64, s
 	atomic.AddInt32(&db.aliveIters, 1)
 	return it
 }
+
+// VerifTriggerMemFlush asks the memdb-compaction goroutine to flush the frozen memdb without waiting for it
+// (what rotateMem(n, false) does; that trigger is dropped when the goroutine is not yet receiving).
+func VerifTriggerMemFlush(db *DB) {
+	db.compTrigger(db.mcompCmdC)
+}
